@@ -73,6 +73,74 @@ def main(run):
         t = terms.Terms(b).ret() if b else None
         if not (t and t[0] == 'field' and t[2] == 1 and t[1][0] == 'field' and t[1][2] == 1):
             run.violation('owned|is_base_64_encoded', f'DataUrlBuf::is_base_64_encoded is not the stored base_64 flag ({str(t)[:80]})')
+    # ---- decoded_data (both forms): the data part, decoded with the STANDARD base64 alphabet (RFC 2397 / RFC 2045) exactly when the flag is set
+    from .. import pathsens
+    for ty in ('uri::scheme::data::DataUrl', 'uri::scheme::data::DataUrlBuf'):
+        fn = ty + '::decoded_data'
+        b = P.body(fn)
+        run.count('decode_rules')
+        if b is None:
+            run.violation(f'decode|{fn}', f'{fn} not found')
+            continue
+        T = terms.Terms(b)
+
+        def is_data(x, ty=ty):
+            """the data part of self, as text or bytes"""
+            while x[0] in ('ref', 'deref') or (x[0] == 'call' and len(x[2]) == 1 and x[1].rsplit('::', 1)[-1] in ('as_bytes', 'as_str', 'as_ref')):
+                x = x[1] if x[0] in ('ref', 'deref') else x[2][0]
+            return x[0] == 'call' and x[1] == ty + '::encoded_data' and x[2] and x[2][0][:2] == ('arg', 1)
+
+        def engine_of(x, fn=fn):
+            """name of the base64 engine constant behind the receiver of decode (a promoted `&CONST` of this function)"""
+            while x[0] in ('ref', 'deref'):
+                x = x[1]
+            if x[0] == 'item':
+                cands = [n for n in P.bodies if n.startswith(fn + '::promoted[')] if x[1] == fn else []
+                names = set()
+                for n in cands:
+                    for bl in P.bodies[n]['blocks']:
+                        for st in bl['stmts']:
+                            if st['k'] == 'assign' and st['rv']['k'] == 'use' and st['rv']['op']['k'] == 'const':
+                                names.add((st['rv']['op'].get('uneval') or st['rv']['op'].get('text') or '').replace('const ', '').strip())
+                if not cands:
+                    names.add(x[1])
+                return names
+            return {str(x)[:60]}
+
+        def atom_of(t, ty=ty):
+            if t[0] == 'call' and t[1] == ty + '::is_base_64_encoded' and t[2] and t[2][0][:2] == ('arg', 1):
+                return ('B64', False)
+            return None
+        npaths = 0
+        for path, asm in pathsens.paths(b, T, atom_of):
+            npaths += 1
+            d = dict(asm)
+            dec = [b['blocks'][bi]['term'] for bi in path if b['blocks'][bi]['term']['k'] == 'call' and (mir.callee(b['blocks'][bi]['term']) or '').endswith('Engine::decode')]
+            if d.get('B64') is True:
+                if len(dec) != 1:
+                    run.violation(f'decode|{fn}|flagged', f'{P.where(b)} {fn}: on the path where the value is flagged base64 the data is decoded {len(dec)} times (once expected)')
+                    continue
+                eng = engine_of(T.operand(dec[0]['args'][0]))
+                if not (len(eng) == 1 and next(iter(eng)).endswith('::STANDARD')):
+                    run.violation(f'decode|{fn}|engine', f'{P.where(b, dec[0].get("l"))} {fn}: the data is decoded with {sorted(eng)}, not with the standard base64 alphabet (base64::…::STANDARD) that RFC 2397 prescribes and the other form uses')
+                if not is_data(T.operand(dec[0]['args'][1])):
+                    run.violation(f'decode|{fn}|input', f'{P.where(b, dec[0].get("l"))} {fn}: what is decoded is not encoded_data() of self')
+            elif d.get('B64') is False:
+                if dec:
+                    run.violation(f'decode|{fn}|plain', f'{P.where(b)} {fn}: a value that is NOT flagged base64 is decoded')
+            else:
+                run.violation(f'decode|{fn}|flag', f'{P.where(b)} {fn}: a path does not test is_base_64_encoded() of self')
+        r = T.ret()
+        alts = r[1] if r[0] == 'phi' else (r,)
+        plain = [a for a in alts if a[0] == 'agg' and a[1][:2] == ('adt', 'std::result::Result') and a[1][2] == 0]
+        if len(plain) != 1 or not (plain[0][2][0][0] == 'agg' and plain[0][2][0][1][1].endswith('Cow') and is_data(plain[0][2][0][2][0])):
+            run.violation(f'decode|{fn}|borrowed', f'{P.where(b)} {fn}: the value returned for data that is not base64 is not Ok(Cow::Borrowed(the bytes of encoded_data()))')
+        coded = [a for a in alts if a not in plain]
+        if len(coded) != 1 or not any(n[0] == 'call' and n[1].endswith('Engine::decode') for n in terms.walk(coded[0])):
+            run.violation(f'decode|{fn}|owned', f'{P.where(b)} {fn}: the value returned for base64 data is not the result of the decoder')
+        if npaths < 2:
+            run.violation(f'decode|{fn}|paths', f'{fn}: {npaths} path(s) (2 expected)')
+    run.floor('decode_rules', 2, 'decoded_data of the borrowed and the owned form')
     # ---- scanner part (Engine S): the scanners against the documented shape, for all texts
     from .. import dataurl
     tot = {'configs': 0, 'transitions': 0, 'returns': 0}
@@ -97,4 +165,4 @@ def main(run):
                        f'{run.cov.get("scanner_obligations")} obligations, {tot["returns"]} abstract returns checked, termination (no input-free cycle), no out-of-bounds slice',
         'exhaustive': True,
     }, assumptions=['a valid URI is ascii (C01), so char iteration is byte iteration', 'str::strip_prefix / char_indices / chars / Iterator::next / slicing / == behave as documented (summaries in iv/strscan.py)',
-                    'base64 decoding (decoded_data) is the base64 crate\'s and is NOT covered', 'traces_validated_against_impl is 0: static analysis only'])
+                    'the base64 decoder itself (base64 crate) is trusted; which alphabet it is called with, on what and when is checked', 'traces_validated_against_impl is 0: static analysis only'])
